@@ -275,6 +275,7 @@ func rewrite(path string, src []byte, counts map[string]int) ([]byte, bool) {
 		id, ok := se.X.(*ast.Ident)
 		return ok && id.Name == pkg && id.Obj == nil && se.Sel.Name == fn
 	}
+	goTmp := 0
 	simpleArg := func(e ast.Expr) bool {
 		ok := true
 		ast.Inspect(e, func(n ast.Node) bool {
@@ -431,16 +432,43 @@ func rewrite(path string, src []byte, counts map[string]int) ([]byte, bool) {
 					out = append(out, exprStmt(mc("Go", fl)))
 					continue
 				}
-				for _, a := range x.Call.Args {
-					if !simpleArg(a) {
-						fail(fset, x.Pos(), "go statement with non-trivial argument expressions")
+				// the function value and the arguments of a go statement are evaluated by the spawning
+				// goroutine: non-trivial ones go into temporaries first
+				hasRecv := func(e ast.Expr) bool {
+					found := false
+					ast.Inspect(e, func(n ast.Node) bool {
+						if u, ok := n.(*ast.UnaryExpr); ok && u.Op == token.ARROW {
+							found = true
+						}
+						return !found
+					})
+					return found
+				}
+				var pre []ast.Stmt
+				tmp := func(e ast.Expr) ast.Expr {
+					if hasRecv(e) {
+						fail(fset, x.Pos(), "go statement whose operands receive from a channel")
 					}
+					goTmp++
+					id := ast.NewIdent(fmt.Sprintf("mcrtGo%d", goTmp))
+					pre = append(pre, &ast.AssignStmt{Lhs: []ast.Expr{id}, Tok: token.DEFINE, Rhs: []ast.Expr{e}})
+					return id
 				}
 				if !simpleArg(x.Call.Fun) {
-					fail(fset, x.Pos(), "go statement with non-trivial function expression")
+					x.Call.Fun = tmp(x.Call.Fun)
+				}
+				for i, a := range x.Call.Args {
+					if !simpleArg(a) {
+						x.Call.Args[i] = tmp(a)
+					}
 				}
 				body := &ast.BlockStmt{List: []ast.Stmt{exprStmt(x.Call)}}
-				out = append(out, exprStmt(mc("Go", &ast.FuncLit{Type: &ast.FuncType{Params: &ast.FieldList{}}, Body: body})))
+				spawn := exprStmt(mc("Go", &ast.FuncLit{Type: &ast.FuncType{Params: &ast.FieldList{}}, Body: body}))
+				if len(pre) > 0 {
+					out = append(out, &ast.BlockStmt{List: append(pre, spawn)})
+				} else {
+					out = append(out, spawn)
+				}
 				continue
 			case *ast.SendStmt:
 				if !pureChanExpr(x.Chan) {
